@@ -225,7 +225,11 @@ def finish(report, seed=0, level='other', extra_cov=None, quiet=False):
     counts = {}
     for o in r.obls:
         counts[o.rule] = counts.get(o.rule, 0) + 1
+    any_violation = any(not o.ok for o in r.obls)
     for rid, floor in r.floors.items():
+        # a rule that already reports a violation explains its own shortfall
+        if any_violation and any((not o.ok) and o.rule == rid for o in r.obls):
+            continue
         if counts.get(rid, 0) < floor:
             raise AnalysisError(
                 'rule %s matched %d site(s), floor is %d (anchor vanished?)'
